@@ -24,6 +24,10 @@ def languages(thorough):
                            RangeL=['['], RangeR=[']!'], CallFuns=['len'], SetLens=[1], Fields=[])))
     L.append(('prop', dict(Start=30, MaxTok=11 if thorough else 10, PredPool='SmallPool', Channels=['t', 'u'],
                            Times=['100', '0', '700'] if not thorough else ['100', '0', '700', '9', '350'], DisjLens=[2] if not thorough else [2, 3])))
+    # event disjunctions of four and five alternatives (nothing else fits into the token bound)
+    wide = dict(Start=30, ScopeKinds=['globally'], PatternKinds=['no'], Channels=['t', 'u', 'w', 'v', 'z'], AliasNames=[], PredPool='SmallPool', Times=[], Units=[])
+    L.append(('prop_disj4', dict(wide, MaxTok=12, DisjLens=[4])))
+    L.append(('prop_disj5', dict(wide, MaxTok=14, DisjLens=[5], Channels=['t', 'u', 'w', 'v', 'z'] if thorough else ['t', 'u', 'w', 'v'] + ['z'])))
     return L
 
 
